@@ -8,6 +8,7 @@ package quic
 import (
 	"context"
 	"fmt"
+	"strings"
 	"sync"
 	"time"
 
@@ -58,13 +59,43 @@ func vsDialer(kind string, conn *simnet.SimConn) (dial func(ctx context.Context,
 			return ut.Dial(ctx, vtrace.ServerAddr, vtrace.ClientTLS(), conf)
 		}, func() { tr.Close() }, nil
 	}
-	id, ok := vsQUICIDs[kind]
+	base, variant, _ := strings.Cut(kind, "+")
+	id, ok := vsQUICIDs[base]
 	if !ok {
 		panic("unknown client kind " + kind)
 	}
 	sp, err := QUICID2Spec(id)
 	if err != nil {
 		panic(err)
+	}
+	// derived specs (C02: "a spec derived from one without removing parameters the peer requires")
+	for _, v := range strings.Split(variant, "+") {
+		switch v {
+		case "":
+		case "nofb": // default framing of the Initial CRYPTO stream
+			sp.InitialPacketSpec.FrameBuilder = nil
+		case "emptyfb":
+			sp.InitialPacketSpec.FrameBuilder = QUICFrames{}
+		case "plan999":
+			sp.InitialPacketSpec.FrameBuilder = nil
+			sp.InitialPacketSpec.InitialPackets = []InitialPacketPlan{{CryptoLength: 999, PacketSize: 1200}}
+		case "tok": // synthesised token
+			sp.InitialPacketSpec.ClientTokenPrefix = []byte{0xc3, 0xec, 0x05}
+			sp.InitialPacketSpec.ClientTokenLength = 32
+		case "pn": // unusual first packet number and encodings
+			sp.InitialPacketSpec.InitPacketNumber = 70000
+			sp.InitialPacketSpec.InitPacketNumberLength = 0
+			sp.InitialPacketSpec.InitPacketNumberLengths = []PacketNumberLen{4, 3, 4}
+		case "shuffle":
+			sp.RandomizeTransportParameters = true
+		case "cid":
+			sp.InitialPacketSpec.SrcConnIDLength = 7
+			sp.InitialPacketSpec.DestConnIDLength = 17
+		case "udp1350":
+			sp.UDPDatagramMinSize = 1350
+		default:
+			panic("unknown spec variant " + v)
+		}
 	}
 	ut := &UTransport{Transport: tr, QUICSpec: &sp}
 	return func(ctx context.Context, conf *Config) (*Conn, error) {
